@@ -19,7 +19,7 @@ import (
 
 type ps8Scope struct {
 	name    string
-	funcs   func(fn *ssa.Function) bool                        // functions whose calls are checked
+	funcs   func(fn *ssa.Function) bool                         // functions whose calls are checked
 	source  func(fn *ssa.Function, ci ssa.CallInstruction) bool // calls in the source set
 	degrade map[string]string                                   // FuncKey -> reason: function may degrade to a default
 }
